@@ -23,6 +23,7 @@ class Cluster:
         self.events = []
         self.other = []          # flush messages for other cache classes (not part of the trace)
         self.drop = set()        # (to-index) whose next flush is dropped
+        self.delay = {}          # to-index -> seconds the next flush to that node is held before it is forwarded
         self.cache_id = cache_id
         self.captured = None     # (headers, body) of a genuine flush request, for injection
         self.adminpw = None
@@ -57,26 +58,31 @@ class Cluster:
                         info = json.loads(body)
                     except Exception:
                         info = {}
-                    mine = info.get("cache") == cl.cache_id or info.get("CacheID") == cl.cache_id or \
-                        info.get("cacheID") == cl.cache_id or info.get("cache_id") == cl.cache_id
+                    cid = info.get("cache_id", info.get("CacheID", info.get("cacheID", info.get("cache"))))
+                    cname = cl.CLASS.get(cid, "c%s" % cid)
+                    mine = True           # every cache class is traced
                     info["_mine"] = mine
-                    if mine and cl.captured is None:
+                    if cid == cl.cache_id and cl.captured is None:
                         cl.captured = (dict(self.headers), body)
                     frm = cl.name_of(info.get("sender") or info.get("SenderID") or info.get("senderID") or info.get("sender_id"))
                     hops = info.get("hops", info.get("Hops", 0))
                     if mine and cl.recording:
-                        cl.log(ev="Send", n=frm, to="n%d" % (idx + 1), hops=hops)
+                        cl.log(ev="Send", n=frm, to="n%d" % (idx + 1), c=cname, hops=hops)
                         with cl.lock:
                             dropit = idx in cl.drop
                             cl.drop.discard(idx)
                         if dropit:
-                            cl.log(ev="Lose", n="n%d" % (idx + 1), to=frm, hops=hops)
+                            cl.log(ev="Lose", n="n%d" % (idx + 1), to=frm, c=cname, hops=hops)
                             self.close_connection = True
                             try:
                                 self.connection.shutdown(2)
                             except Exception:
                                 pass
                             return
+                        with cl.lock:
+                            hold = cl.delay.pop(idx, 0)
+                        if hold:
+                            time.sleep(hold)
                     elif not mine:
                         with cl.lock:
                             cl.other.append({"from": frm, "to": "n%d" % (idx + 1), "body": info})
@@ -92,8 +98,10 @@ class Cluster:
                 finally:
                     c.close()
                 if is_flush and info.get("_mine") and cl.recording:
-                    pres = cl.present(idx)
-                    cl.log(ev="Deliver", n="n%d" % (idx + 1), to=frm, hops=hops, status=status, present=pres)
+                    obs = "unk"
+                    if cid == cl.cache_id:
+                        obs = "yes" if cl.present(idx) else "no"
+                    cl.log(ev="Deliver", n="n%d" % (idx + 1), to=frm, c=cname, hops=hops, status=status, obs=obs)
                 self.send_response(status)
                 for k, v in rh:
                     if k.lower() not in ("transfer-encoding", "connection", "content-length"):
@@ -165,6 +173,7 @@ class Cluster:
         return self.nodes[i].req(method, path, body, auth=("admin", self.adminpw))
 
     COUNT_FIELD = {0: "dsnCount", 5: "schemaCount"}
+    CLASS = {0: "dsn", 1: "auth", 2: "user", 3: "token", 4: "blacklist", 5: "schema"}
 
     def present(self, i):
         r = self.admin(i, "GET", "/admin/caches")
